@@ -24,6 +24,9 @@ def run(tier):
             for j, (box, extra) in enumerate((([[0.0, 1.0]], {}), ([[0.0, 10.0]], {"nu": 2.0} if algo in ("T_HOO", "HCT", "VHCT", "Zooming") else {}))):
                 tid += 1
                 twins.append({"id": tid, "algo": algo, "kind": "bin", "K": 2, "D": 1, "box": box, "n": 100, "T": 100, "prm": dict(prm, **extra), "pattern": pat, "seed": 12345})
+    # a StroquOOL budget long enough for several distinct cross-validation candidates (their order must not
+    # depend on object identity / hashing)
+    twins.append({"id": 3990001, "algo": "StroquOOL", "kind": "bin", "K": 2, "D": 1, "box": [[0.0, 1.0]], "n": 3000, "T": 3000, "prm": {}, "pattern": "noisy", "seed": 777})
     cfgs = cfgs + twins
     m = (len(cfgs) + 7) // 8
     chunks = [cfgs[k * m:(k + 1) * m] for k in range(8) if cfgs[k * m:(k + 1) * m]]     # contiguous: instances of one algorithm share an interpreter
@@ -74,6 +77,12 @@ def run(tier):
         if len(sc) <= 12:   # short exhaustive schedules: prefix of the run, the rest sequential
             pass
         jobs.append((ca, cb, sc))
+    # siblings: two live instances of the SAME algorithm with different parameters / budgets, interleaved
+    sib = PC2.base_cfgs(tier, 3150000, iso_algos, 1, rng_free=True, seedoff=3, n_choices=(40,))
+    for k2, c in enumerate(sib):
+        other = dict(c, n=64, T=64, seed=c["seed"] + 1, prm=dict(c["prm"], **({"nu": 2.0, "rho": 0.7} if c["algo"] in ("T_HOO", "HCT", "VHCT", "Zooming") else {})))
+        sc = long[k2 % len(long)] if long else scheds[0]
+        jobs.append((dict(c, id=5500000 + 8 * k2), dict(other, id=5500000 + 8 * k2 + 4), sc))
     res = S.pmap(PC2.run_two, jobs)
     pairs = []
     for r in res:
